@@ -33,7 +33,7 @@ def scale_of(vals):
     s = 1
     while any(float(x) * s != round(float(x) * s) for x in vals):
         s *= 2
-        if s > 1024:
+        if s > 2 ** 44:
             raise D.DriverError("not dyadic")
     return s
 
@@ -152,6 +152,8 @@ def main():
                 elif kind == 4:                           # integer combination of two unit games and a random game
                     s1, s2 = rng.randrange(1, NC), rng.randrange(1, NC)
                     v = [v[c] + 3 * (c == s1) - 2 * (c == s2) for c in range(NC)]
+                if j % 7 == 6:
+                    v = [x * 2.0 ** -30 for x in v]          # very small magnitude
                 traces.append(shapley_trace(tid, n, v))
         else:
             if n <= a.unit_max_n:
@@ -184,6 +186,8 @@ def main():
                         s = rng.randrange(1, NC - 1)
                         k = rng.randint(-3, 3)
                         (lo if rng.random() < 0.5 else up)[s] += k
+                if j % 7 == 6:
+                    lo, up = [x * 2.0 ** -30 for x in lo], [x * 2.0 ** -30 for x in up]
                 traces.append(expl_trace(tid, n, lo, up))
                 if n <= 6 and kind in (0, 2, 4):          # domination: completions inside the box (corners and interior points)
                     lo2 = [min(l, u) for l, u in zip(lo, up)]
